@@ -40,6 +40,8 @@ def nidx(s):
 
 
 def dec_elem(e):
+    if e == "@empty":
+        return ""
     return int(e[1:]) if isinstance(e, str) and e.startswith("#") else e
 
 
@@ -48,7 +50,28 @@ def enc_elem(e):
         return f"?{e}"
     if isinstance(e, int):
         return f"#{e}"
+    if e == "":
+        return "@empty"
     return e if isinstance(e, str) else f"?{e!r}"
+
+
+_VALS = {"none": None, "@0": 0, "@empty": "", "@False": False}
+
+
+def dec_val(v):
+    return _VALS[v] if v in _VALS else v
+
+
+def enc_val(v):
+    if v is None:
+        return "none"
+    if v is False:
+        return "@False"
+    if isinstance(v, int) and not isinstance(v, bool) and v == 0:
+        return "@0"
+    if v == "":
+        return "@empty"
+    return v if isinstance(v, str) else f"?{v!r}"
 
 
 def ts_of(p, l, r):
@@ -83,7 +106,7 @@ def project(kind, obj, el):
         if kind in ("G", "PN"):
             o["val"] = int(obj.value)
         elif kind == "LWW":
-            o["val"] = "none" if obj.value is None else obj.value
+            o["val"] = enc_val(obj.value)
         else:
             o["val"] = sorted(enc_elem(e) for e in obj.value)
         return o
@@ -104,9 +127,8 @@ def _project(kind, obj, el):
         o["val"] = int(obj.value)
     elif kind == "LWW":
         if obj.timestamp is not None:
-            o["reg"] = [obj.value, enc_ts(obj.timestamp)]
-        v = obj.get()
-        o["val"] = "none" if v is None else v
+            o["reg"] = [enc_val(obj.value), enc_ts(obj.timestamp)]
+        o["val"] = enc_val(obj.get())
     else:
         ent = {enc_elem(e): sorted([nidx(t[0]), int(t[1])] for t in tags) for e, tags in obj._entries.items()}
         o["ent"] = [ent.get(e, []) for e in el]
@@ -142,7 +164,7 @@ def apply_update(kind, obj, a):
     elif op == "dec":
         obj.decrement(a[2])
     elif op == "set":
-        obj.set(a[2], ts_of(a[3], a[4], a[1]))
+        obj.set(dec_val(a[2]), ts_of(a[3], a[4], a[1]))
     elif op == "add":
         obj.add(dec_elem(a[2]))
     elif op == "rem":
